@@ -81,6 +81,9 @@ def tokenizer_facts():
                 continue
             if tok(a + 'xx' + b) == [('string', 'xx')]:
                 pairs.append((a, b))
+                # the shortest quoted string is the empty one (two characters)
+                if tok(a + b) != [('string', '')] or tok(a) != [('check', 'FalseCheck')]:
+                    raise Refuse('quoted-string length bound changed: %r tokenizes as %r' % (a + b, tok(a + b)))
     # is the quote test made after stripping trailing parentheses?
     probe = tok('("ab")')
     if probe == [('(', '('), ('string', 'ab'), (')', ')')]:
